@@ -59,6 +59,13 @@
 
 #define MAX_NLINES	(16384)
 #define MAX_LLEN	(1024)
+#if defined DATEUTILS_VERIF && defined VERIF_MAX_NLINES
+/* verification hook: scale the window so that a solver can cover it */
+# undef MAX_NLINES
+# undef MAX_LLEN
+# define MAX_NLINES	(VERIF_MAX_NLINES)
+# define MAX_LLEN	(VERIF_MAX_LLEN)
+#endif	/* DATEUTILS_VERIF && VERIF_MAX_NLINES */
 
 #if !defined MAP_ANONYMOUS && defined MAP_ANON
 # define MAP_ANONYMOUS	(MAP_ANON)
@@ -143,6 +150,11 @@ prchunk_fill(prch_ctx_t ctx)
  * lines read so far and a reader yielding a buffer fill and the number of
  * bytes read */
 #define CHUNK_SIZE	(4096)
+#if defined DATEUTILS_VERIF && defined VERIF_CHUNK_SIZE
+/* verification hook: scaled read size */
+# undef CHUNK_SIZE
+# define CHUNK_SIZE	(VERIF_CHUNK_SIZE)
+#endif	/* DATEUTILS_VERIF && VERIF_CHUNK_SIZE */
 #define YIELD(x)	goto yield##x
 	char *off = ctx->buf + 0;
 	char *bno = ctx->buf + ctx->bno;
